@@ -58,9 +58,25 @@ def run(ctx):
     from ..helpers import term_lookup, with_helpers
     tl = term_lookup(prog, with_helpers(prog, send))
 
+    def settles_auth(t, truth):
+        """every way the test can come out `truth` says: not a V3 connection, or authenticated"""
+        from ..facts import alternatives
+        authd = ("attr", ("attr", ("param", sp), "_protocol"), "authenticated")
+
+        def says(a):
+            a = strip(a)
+            if a == authd:
+                return True
+            if a[0] == "un" and a[1] == "not" and call_is(strip(a[2]), "isinstance") and strip(strip(a[2])[2][0]) == ("attr", ("param", sp), "_protocol") \
+                    and strip(a[2])[2][1] == ("global", V3):
+                return True
+            return False
+        alts = alternatives(strip(t), truth)
+        return bool(alts) and all(any(says(a) for a in alt) for alt in alts)
+
     def on_branch(test, truth, st):
         t = tl(test)
-        if t is not None and is_auth_test(t) and truth is False:
+        if t is not None and ((is_auth_test(t) and truth is False) or settles_auth(t, truth)):
             return ["auth_ok"]
         return []
 
